@@ -38,6 +38,12 @@ var props = map[string]propCfg{
 	"C16": {Pkg: "checks/c16", Go: "go1.26", Level: "fault_enumeration", Passes: []pass{
 		{Name: "race", Race: true, Shards: 16, TimeoutS: 900},
 	}, RaceFiles: []string{`^rpc/plugins/cluster/`}},
+	"C20": {Pkg: "checks/c20", Go: "go1.26", Level: "fault_enumeration", Passes: []pass{
+		{Name: "race", Race: true, Shards: 16, TimeoutS: 900},
+	}, RaceFiles: []string{`^rpc/plugins/circuitbreaker/`}},
+	"C17": {Pkg: "checks/c17", Go: "go1.26", Level: "exploration", Passes: []pass{
+		{Name: "race", Race: true, Shards: 16, TimeoutS: 900},
+	}, RaceFiles: []string{`^rpc/plugins/limiter/`}},
 	"C14": {Pkg: "checks/c14", Level: "exploration", Passes: []pass{
 		{Name: "race", Race: true, Shards: 48, ShardsThorough: 256, TimeoutS: 900, TZ: []string{"UTC"}},
 		{Name: "plain", Shards: 48, ShardsThorough: 256, TimeoutS: 600, TZ: []string{"UTC"}},
